@@ -31,6 +31,7 @@ type Tape struct {
 	Cycle        []string `json:"cycle,omitempty"`         // when set, the tail is this sequence repeated for ever instead of one constant response
 	GapS         int64    `json:"gap_s,omitempty"`         // simulated seconds between the earlier calls and the judged one (tickets then live 10 minutes, renewable)
 	Warm         []string `json:"warm,omitempty"`          // earlier calls of the same spnego.Client (GET), each against a server answering this kind for ever
+	KDCDown      string   `json:"kdc_down,omitempty"`      // during the judged call no KDC can be reached: refuse | silent | close (seeded runs)
 	PreAuth      string   `json:"pre_auth,omitempty"`      // api=do: the request handed to Do already carries an Authorization header: stale (a Negotiate token left by an earlier use of the request) | basic
 }
 
@@ -202,6 +203,11 @@ func Gen(caseID, tier string) (json.RawMessage, error) {
 	}
 	if kind == "seed" && tp.API == "do" && r.Chance(1, 6) {
 		tp.PreAuth = r.Pick("stale", "stale", "basic")
+	}
+	if kind == "seed" && r.Chance(1, 6) {
+		// the KDCs cannot be reached while the judged call runs: whatever the server answers, the call
+		// still has to end, with an error or with a response, after a bounded number of requests
+		tp.KDCDown = r.Pick("refuse", "refuse", "silent", "close")
 	}
 	return core.MustJSON(tp), nil
 }
